@@ -8,7 +8,7 @@ frames.
 """
 from hyperframe.exceptions import InvalidFrameError, InvalidDataError
 from hyperframe.frame import (
-    Frame, HeadersFrame, ContinuationFrame, PushPromiseFrame
+    Frame, HeadersFrame, ContinuationFrame, PushPromiseFrame, SettingsFrame
 )
 
 from .exceptions import (
@@ -141,6 +141,12 @@ class FrameBuffer:
         try:
             f.parse_body(memoryview(self.data[9:9+length]))
         except InvalidDataError:
+            if isinstance(f, SettingsFrame) and 'ACK' in f.flags and length:
+                # RFC 7540 Section 6.5: a SETTINGS ACK with a payload is a
+                # connection error of type FRAME_SIZE_ERROR.
+                raise FrameDataMissingError(
+                    "SETTINGS frame with ACK flag must be empty"
+                )
             raise ProtocolError("Received frame with non-compliant data")
         except InvalidFrameError:
             raise FrameDataMissingError("Frame data missing or invalid")
